@@ -3,7 +3,10 @@ package main
 import (
 	"fmt"
 	"go/ast"
+	"go/printer"
 	"go/token"
+	"os"
+	"path/filepath"
 	"sort"
 	"strings"
 )
@@ -465,6 +468,11 @@ func evalTables(repo string) (string, error) {
 	fmt.Fprintf(&sb, "Definition go_func_map : list (string * (gimpl * list gty * gty)) := [\n  %s].\n", strings.Join(gm, ";\n  "))
 	fmt.Fprintf(&sb, "Definition slice_result_guard : slice_guard := %s.\n", sliceResultGuard(gf.file))
 	fmt.Fprintf(&sb, "Definition eval_writes_view_type : bool := %v.\n", writesViewType(ef.file))
+	st, err := evalState(repo)
+	if err != nil {
+		return "", err
+	}
+	sb.WriteString(st)
 	return sb.String(), nil
 }
 
@@ -1046,4 +1054,452 @@ func writesViewType(f *ast.File) bool {
 		})
 	}
 	return found
+}
+
+// ---- evaluator state: "evalExpr keeps no per-node state" ----
+//
+// Everything an evaluation could remember from one evaluation of an expression node to the next is either a field of
+// exprEval, a package-level variable of pkg/eval, the expression tree itself (the shared module), or a map some
+// function writes to. All four are listed here from the source as it is now (every non-test file of pkg/eval):
+//
+//	expr_eval_fields    every field of struct exprEval, in declaration order, with what is done to it:
+//	                    FuRead (never assigned after construction), FuStack (exprStack: only Push / Pop / Peek),
+//	                    FuWritten [functions that assign it or call another pointer method on it]
+//	eval_package_vars   every package-level variable: PvNeverWritten | PvWritten [functions] (assignment, index
+//	                    assignment, field assignment, delete, append-assignment, ++/--, &x, or a Store / Set / Lock
+//	                    style method call)
+//	eval_ast_writes     assignments whose target is reached from a parameter / receiver of an expression-tree or module
+//	                    type (*sysl.Expr..., *sysl.View, *sysl.Application, *sysl.Module) or a variable derived from
+//	                    one; a `v := *node` copy may have its OWN fields assigned (one selector), nothing deeper
+//	eval_map_writes     every index assignment and delete(), classified by what the map is: the Scope (MwScope), a
+//	                    local map / a map parameter of a set helper (MwLocal / MwParamMap), the Items of a value under
+//	                    construction (MwValueItems), a package variable, an exprEval field, the expression tree, other
+//	eval_scope_keys     the key expressions under which the Scope is written or deleted (a hidden key would be state)
+func evalState(repo string) (string, error) {
+	dir := filepath.Join(repo, "pkg/eval")
+	ents, err := os.ReadDir(dir)
+	if err != nil {
+		return "", err
+	}
+	var files []*goFile
+	for _, e := range ents {
+		n := e.Name()
+		if !strings.HasSuffix(n, ".go") || strings.HasSuffix(n, "_test.go") {
+			continue
+		}
+		gf, err := parseGo(repo, "pkg/eval/"+n)
+		if err != nil {
+			return "", err
+		}
+		files = append(files, gf)
+	}
+	text := func(gf *goFile, n ast.Node) string {
+		var b strings.Builder
+		printer.Fprint(&b, gf.fset, n)
+		return strings.Join(strings.Fields(b.String()), " ")
+	}
+	cs := func(s string) string { return "\"" + strings.ReplaceAll(s, "\"", "\"\"") + "\"" }
+	clist := func(xs []string) string {
+		var q []string
+		for _, x := range xs {
+			q = append(q, cs(x))
+		}
+		return "[" + strings.Join(q, "; ") + "]"
+	}
+	typeText := func(gf *goFile, e ast.Expr) string { return text(gf, e) }
+
+	// package-level variables, the fields of exprEval, pointer-receiver methods per type
+	pkgVars := map[string]bool{}
+	var fields []string
+	ptrMethods := map[string]map[string]bool{} // type -> methods with pointer receiver
+	for _, gf := range files {
+		for _, d := range gf.file.Decls {
+			switch x := d.(type) {
+			case *ast.GenDecl:
+				for _, sp := range x.Specs {
+					switch y := sp.(type) {
+					case *ast.ValueSpec:
+						if x.Tok == token.VAR {
+							for _, n := range y.Names {
+								if n.Name != "_" {
+									pkgVars[n.Name] = true
+								}
+							}
+						}
+					case *ast.TypeSpec:
+						if st, ok := y.Type.(*ast.StructType); ok && y.Name.Name == "exprEval" {
+							for _, f := range st.Fields.List {
+								if len(f.Names) == 0 {
+									fields = append(fields, typeText(gf, f.Type)) // embedded
+								}
+								for _, n := range f.Names {
+									fields = append(fields, n.Name)
+								}
+							}
+						}
+					}
+				}
+			case *ast.FuncDecl:
+				if x.Recv != nil && len(x.Recv.List) == 1 {
+					if _, ptr := x.Recv.List[0].Type.(*ast.StarExpr); ptr {
+						t := recvName(x)
+						if ptrMethods[t] == nil {
+							ptrMethods[t] = map[string]bool{}
+						}
+						ptrMethods[t][x.Name.Name] = true
+					}
+				}
+			}
+		}
+	}
+
+	fieldWriters := map[string]map[string]bool{}
+	fieldStackOnly := map[string]bool{}
+	fieldOtherMethod := map[string]bool{}
+	varWriters := map[string]map[string]bool{}
+	var astWrites, mapWrites []string
+	scopeKeys := map[string]bool{} // the key expressions under which the Scope is written
+	note := func(m map[string]map[string]bool, k, fn string) {
+		if m[k] == nil {
+			m[k] = map[string]bool{}
+		}
+		m[k][fn] = true
+	}
+	isTreeType := func(t string) bool {
+		for _, s := range []string{"sysl.Expr", "sysl.View", "sysl.Application", "sysl.Module"} {
+			if strings.Contains(t, s) {
+				return true
+			}
+		}
+		return false
+	}
+	// root identifier of an lvalue / source expression, the number of selectors / indexes on the way, and whether a
+	// dereference copy (*x) was taken
+	var rootOf func(e ast.Expr) (string, int, bool)
+	rootOf = func(e ast.Expr) (string, int, bool) {
+		switch x := e.(type) {
+		case *ast.Ident:
+			return x.Name, 0, false
+		case *ast.SelectorExpr:
+			r, n, c := rootOf(x.X)
+			return r, n + 1, c
+		case *ast.IndexExpr:
+			r, n, c := rootOf(x.X)
+			return r, n + 1, c
+		case *ast.ParenExpr:
+			return rootOf(x.X)
+		case *ast.StarExpr:
+			r, n, _ := rootOf(x.X)
+			return r, n, true
+		case *ast.UnaryExpr:
+			if x.Op == token.AND {
+				return rootOf(x.X)
+			}
+		case *ast.TypeAssertExpr:
+			return rootOf(x.X)
+		case *ast.CallExpr:
+			// a getter on a tree node: x.GetFoo()
+			if se, ok := x.Fun.(*ast.SelectorExpr); ok && strings.HasPrefix(se.Sel.Name, "Get") && len(x.Args) == 0 {
+				r, n, c := rootOf(se.X)
+				return r, n + 1, c
+			}
+		case *ast.SliceExpr:
+			return rootOf(x.X)
+		}
+		return "", 0, false
+	}
+
+	for _, gf := range files {
+		for _, fd := range funcDecls(gf.file) {
+			if fd.Body == nil {
+				continue
+			}
+			fn := fd.Name.Name
+			if r := recvName(fd); r != "" {
+				fn = r + "." + fn
+			}
+			// names bound in this function: exprEval variables, tree variables (tainted), copies, scopes, local maps,
+			// map parameters, value parameters; locals shadowing package variables
+			eeVars, tree, treeCopy, scopes, localMaps, paramMaps, values, locals := map[string]bool{}, map[string]bool{}, map[string]bool{}, map[string]bool{}, map[string]bool{}, map[string]bool{}, map[string]bool{}, map[string]bool{}
+			bindParam := func(fl *ast.FieldList) {
+				if fl == nil {
+					return
+				}
+				for _, f := range fl.List {
+					t := typeText(gf, f.Type)
+					for _, n := range f.Names {
+						locals[n.Name] = true
+						switch {
+						case strings.Contains(t, "exprEval"):
+							eeVars[n.Name] = true
+						case isTreeType(t):
+							tree[n.Name] = true
+						case t == "Scope" || t == "*Scope":
+							scopes[n.Name] = true
+						case strings.HasPrefix(t, "map["):
+							paramMaps[n.Name] = true
+						case strings.Contains(t, "sysl.Value"):
+							values[n.Name] = true
+						}
+					}
+				}
+			}
+			bindParam(fd.Recv)
+			bindParam(fd.Type.Params)
+			define := func(lhs ast.Expr, rhs ast.Expr) {
+				id, ok := lhs.(*ast.Ident)
+				if !ok || id.Name == "_" {
+					return
+				}
+				locals[id.Name] = true
+				if rhs == nil {
+					return
+				}
+				switch r := rhs.(type) {
+				case *ast.CallExpr:
+					if isIdent(r.Fun, "make") && len(r.Args) >= 1 {
+						if isIdent(r.Args[0], "Scope") {
+							scopes[id.Name] = true
+						} else {
+							localMaps[id.Name] = true
+						}
+						return
+					}
+					if fid, ok := r.Fun.(*ast.Ident); ok && strings.HasPrefix(fid.Name, "MakeValue") {
+						values[id.Name] = true
+						return
+					}
+				case *ast.CompositeLit:
+					if isIdent(r.Type, "Scope") {
+						scopes[id.Name] = true
+					} else if isIdent(r.Type, "exprEval") {
+						eeVars[id.Name] = true
+					} else {
+						localMaps[id.Name] = true
+					}
+					return
+				case *ast.UnaryExpr:
+					if cl, ok := r.X.(*ast.CompositeLit); ok && r.Op == token.AND {
+						if strings.Contains(typeText(gf, cl.Type), "sysl.Value") {
+							values[id.Name] = true
+						} else {
+							localMaps[id.Name] = true // a fresh object of this function
+						}
+						return
+					}
+				}
+				root, _, copied := rootOf(rhs)
+				switch {
+				case root != "" && tree[root] && copied:
+					treeCopy[id.Name] = true
+				case root != "" && (tree[root] || treeCopy[root]):
+					tree[id.Name] = true
+				case root != "" && scopes[root] && root == text(gf, rhs):
+					scopes[id.Name] = true
+				case root != "" && values[root]:
+					values[id.Name] = true
+				case root != "" && localMaps[root]:
+					localMaps[id.Name] = true
+				}
+			}
+			// first pass: definitions (in source order; enough for straight-line taint)
+			ast.Inspect(fd.Body, func(n ast.Node) bool {
+				switch x := n.(type) {
+				case *ast.AssignStmt:
+					if x.Tok == token.DEFINE {
+						for i, l := range x.Lhs {
+							var r ast.Expr
+							if len(x.Rhs) == len(x.Lhs) {
+								r = x.Rhs[i]
+							} else if len(x.Rhs) == 1 && i == 0 {
+								r = x.Rhs[0]
+							}
+							define(l, r)
+						}
+					}
+				case *ast.RangeStmt:
+					if x.Tok == token.DEFINE {
+						if x.Key != nil {
+							define(x.Key, nil)
+						}
+						if x.Value != nil {
+							define(x.Value, x.X)
+						}
+					}
+				case *ast.TypeSwitchStmt:
+					if as, ok := x.Assign.(*ast.AssignStmt); ok && len(as.Lhs) == 1 && len(as.Rhs) == 1 {
+						define(as.Lhs[0], as.Rhs[0])
+					}
+				case *ast.DeclStmt:
+					if gd, ok := x.Decl.(*ast.GenDecl); ok {
+						for _, sp := range gd.Specs {
+							if vs, ok := sp.(*ast.ValueSpec); ok {
+								for _, nm := range vs.Names {
+									locals[nm.Name] = true
+									if strings.HasPrefix(typeText(gf, vs.Type), "map[") {
+										localMaps[nm.Name] = true
+									}
+								}
+							}
+						}
+					}
+				case *ast.FuncLit:
+					bindParam(x.Type.Params)
+				}
+				return true
+			})
+			// a write to lvalue l (isIndex: the last step is an index, i.e. a map / slice element)
+			write := func(l ast.Expr, how string) {
+				root, depth, _ := rootOf(l)
+				lt := text(gf, l)
+				_, isIndex := l.(*ast.IndexExpr)
+				if how == "delete" {
+					isIndex = true
+				}
+				class := ""
+				switch {
+				case root == "":
+					if isIndex {
+						class = "MwOther"
+					}
+				case eeVars[root]:
+					if depth >= 1 {
+						ch := selChain(l)
+						f := ""
+						if len(ch) >= 2 {
+							f = ch[1]
+						} else if ix, ok := l.(*ast.IndexExpr); ok {
+							if c2 := selChain(ix.X); len(c2) >= 2 {
+								f = c2[1]
+							}
+						}
+						note(fieldWriters, f, fn)
+						class = "MwField"
+					}
+				case tree[root] && depth >= 1:
+					astWrites = append(astWrites, fmt.Sprintf("(%s, %s)", cs(fn), cs(lt)))
+					class = "MwAst"
+				case treeCopy[root] && depth >= 2:
+					astWrites = append(astWrites, fmt.Sprintf("(%s, %s)", cs(fn), cs(lt)))
+					class = "MwAst"
+				case treeCopy[root]:
+					class = "MwLocal"
+				case scopes[root]:
+					class = "MwScope"
+				case localMaps[root]:
+					class = "MwLocal"
+				case paramMaps[root]:
+					class = "MwParamMap"
+				case values[root]:
+					class = "MwValueItems"
+				case pkgVars[root] && !locals[root]:
+					note(varWriters, root, fn)
+					class = "MwPackage"
+				case locals[root] && depth == 0:
+					return // a plain local variable
+				default:
+					class = "MwOther"
+				}
+				if ix, ok := l.(*ast.IndexExpr); ok && class == "MwScope" {
+					scopeKeys[text(gf, ix.Index)] = true
+				}
+				if isIndex {
+					mapWrites = append(mapWrites, fmt.Sprintf("(%s, %s, %s)", cs(fn), cs(how+" "+lt), class))
+				}
+			}
+			ast.Inspect(fd.Body, func(n ast.Node) bool {
+				switch x := n.(type) {
+				case *ast.AssignStmt:
+					if x.Tok != token.DEFINE {
+						for _, l := range x.Lhs {
+							if isIdent(l, "_") {
+								continue
+							}
+							write(l, "set")
+						}
+					}
+				case *ast.IncDecStmt:
+					write(x.X, "set")
+				case *ast.UnaryExpr:
+					// &pkgVar / &ee.field: the address escapes
+					if x.Op == token.AND {
+						if root, depth, _ := rootOf(x.X); root != "" {
+							if pkgVars[root] && !locals[root] {
+								note(varWriters, root, fn)
+							}
+							if eeVars[root] && depth >= 1 {
+								if ch := selChain(x.X); len(ch) >= 2 {
+									note(fieldWriters, ch[1], fn)
+								}
+							}
+						}
+					}
+				case *ast.CallExpr:
+					if isIdent(x.Fun, "delete") && len(x.Args) == 2 {
+						write(&ast.IndexExpr{X: x.Args[0], Index: x.Args[1]}, "delete")
+					}
+					if se, ok := x.Fun.(*ast.SelectorExpr); ok {
+						ch := selChain(se.X)
+						m := se.Sel.Name
+						// method on a field of exprEval: ee.exprStack.Push(...)
+						if len(ch) == 2 && eeVars[ch[0]] {
+							switch {
+							case ch[1] == "exprStack" && (m == "Push" || m == "Pop" || m == "Peek"):
+								fieldStackOnly[ch[1]] = true
+							case ch[1] == "logger":
+								// logging
+							default:
+								fieldOtherMethod[ch[1]] = true
+								note(fieldWriters, ch[1], fn)
+							}
+						}
+						// state-keeping method on a package variable
+						if len(ch) == 1 && pkgVars[ch[0]] && !locals[ch[0]] {
+							switch m {
+							case "Store", "LoadOrStore", "LoadAndDelete", "Delete", "Swap", "CompareAndSwap", "Set", "Put", "Add", "Lock", "RLock", "Do", "Range":
+								note(varWriters, ch[0], fn)
+							}
+						}
+					}
+				}
+				return true
+			})
+		}
+	}
+	keys := func(m map[string]bool) []string {
+		var out []string
+		for k := range m {
+			out = append(out, k)
+		}
+		sort.Strings(out)
+		return out
+	}
+	var sb strings.Builder
+	var rows []string
+	for _, f := range fields {
+		use := "FuRead"
+		switch {
+		case len(fieldWriters[f]) > 0:
+			use = "FuWritten " + clist(keys(fieldWriters[f]))
+		case fieldStackOnly[f]:
+			use = "FuStack"
+		}
+		rows = append(rows, fmt.Sprintf("(%s, %s)", cs(f), use))
+	}
+	fmt.Fprintf(&sb, "Definition expr_eval_fields : list (string * field_use) := [\n  %s].\n", strings.Join(rows, ";\n  "))
+	rows = nil
+	for _, v := range keys(pkgVars) {
+		use := "PvNeverWritten"
+		if len(varWriters[v]) > 0 {
+			use = "PvWritten " + clist(keys(varWriters[v]))
+		}
+		rows = append(rows, fmt.Sprintf("(%s, %s)", cs(v), use))
+	}
+	fmt.Fprintf(&sb, "Definition eval_package_vars : list (string * var_use) := [\n  %s].\n", strings.Join(rows, ";\n  "))
+	sort.Strings(astWrites)
+	fmt.Fprintf(&sb, "Definition eval_ast_writes : list (string * string) := [%s].\n", strings.Join(astWrites, ";\n  "))
+	fmt.Fprintf(&sb, "Definition eval_scope_keys : list string := %s.\n", clist(keys(scopeKeys)))
+	sort.Strings(mapWrites)
+	fmt.Fprintf(&sb, "Definition eval_map_writes : list (string * string * map_write_class) := [\n  %s].\n", strings.Join(mapWrites, ";\n  "))
+	return sb.String(), nil
 }
